@@ -88,7 +88,7 @@ func TestExhaustiveFaults(t *testing.T) {
 func TestReplay(t *testing.T) { evid.Replay(t) }
 
 type world struct {
-	db      *stores.Mem
+	db      objects.Store
 	rs      ref.Store
 	faults  *stores.SQLFaults
 	id      uuid.UUID
@@ -120,7 +120,8 @@ func setup(c Case) (*world, error) {
 	if err != nil {
 		return nil, err
 	}
-	w := &world{db: stores.NewMem(), oldHead: map[string][]byte{}, staged: map[string][]byte{}, tables: map[string][]byte{}, closeFn: closeFn}
+	mem := stores.NewMem()
+	w := &world{db: mem, oldHead: map[string][]byte{}, staged: map[string][]byte{}, tables: map[string][]byte{}, closeFn: closeFn}
 	w.rs = base
 	w.faults = faults
 	for i, b := range c.Branches {
@@ -153,7 +154,7 @@ func setup(c Case) (*world, error) {
 		w.staged[b.Name] = sum
 		w.tables[b.Name] = tbl
 	}
-	w.db.BeforeWrite = func(op string, key []byte) error { return w.gate() }
+	mem.BeforeWrite = func(op string, key []byte) error { return w.gate() }
 	w.faults.SetGate(func(kind, query string) error { return w.gate() })
 	return w, nil
 }
